@@ -61,7 +61,9 @@ def run_case(c):
     B = '/mnt/v1/data/w' if vol else '/home/u/data/w'
     if c['lay'] == 'home-deep':
         B = '/home/u/data/' + DEEP + '/w'
-    W = scen.base_world(mounts=['/', '/mnt/v0', '/mnt/v1'] if c['lay'] == 'top-alt-insecure' else ['/', '/mnt/v1'], cwd=B)
+    # (/mnt/v2 is one more volume with an empty trash directory of its own, listed after the others)
+    W = scen.base_world(mounts=['/', '/mnt/v0', '/mnt/v1', '/mnt/v2'] if c['lay'] == 'top-alt-insecure' else ['/', '/mnt/v1', '/mnt/v2'], cwd=B)
+    scen.add_trash_dir(W, '/mnt/v2/.Trash-0')
     if c['lay'] == 'top-alt-insecure':
         # both the entry's volume and a volume listed before it have a .Trash that is not sticky but already contains a $uid directory:
         # trash-put falls back to .Trash-uid, and trash-restore has to skip the insecure directories WITHOUT giving up on the rest
